@@ -7,34 +7,45 @@
    returns); `walk_paths` is the model of _find_all_source_dirs; `is_root E markers bc t rel`
    is the specification by path components (model/DiscoverC18.v, Section Spec), with
    `comp_excluded ecs` = "some excluded path is a prefix by whole components".
-   Guards of the _partial theorems (both decidable, both recomputed by the harness per case):
+   Domain hypotheses: `wf t` (sibling names distinct, no "/"), `good_paths ecs bc` (components
+   without "/", excluded components non-empty: what os.path.abspath returns).
+   Guard of the _partial theorems (decidable, recomputed by the harness per case):
      root_guard : the root is special-named / inside an excluded path, or no directory
-                  directly under the root is named like a marker;
-     aligned    : no excluded path is a character prefix of a directory's path without
-                  being a component prefix of it (the name-prefix-sibling defect). *)
+                  directly under the root is named like a marker.
+   Since /repo ca4e69e the exclusion test is by whole components; the former guard `aligned`
+   and C18_prefix_sibling_refuted are gone (witness kept in corpus/C18/prefix-sibling.json and
+   as Example prefix_sibling_kept: excl2 is offered). *)
 From Coq Require Import List String Bool Sorting.Permutation.
 From RC Require Import lib.PyStr gen.C18Consts model.DiscoverC18 proofs.DiscoverC18P.
 Import ListNotations.
 
 (* everything the walk yields is a project root by path components -- no guard *)
 Theorem C18_discover_sound :
-  forall ecs user bc t p, wf t ->
+  forall ecs user bc t p, wf t -> good_paths ecs bc ->
   In p (walk_paths (render bc) t (map render ecs) user) ->
   exists rel, p = render (bc ++ rel) /\ is_root (comp_excluded ecs) (all_markers user) bc t rel.
 Proof. exact discover_sound. Qed.
 Print Assumptions C18_discover_sound.
 
-(* exactly the project roots, for ALL trees inside the two guards *)
+(* exactly the project roots, for ALL trees inside root_guard; in particular a sibling that
+   merely shares a name prefix with an excluded path is never lost *)
 Theorem C18_discover_exact_partial :
   forall ecs user bc t p,
-  wf t -> root_guard ecs (all_markers user) bc t = true -> aligned ecs bc t ->
+  wf t -> good_paths ecs bc -> root_guard ecs (all_markers user) bc t = true ->
   (In p (walk_paths (render bc) t (map render ecs) user) <->
    exists rel, p = render (bc ++ rel) /\ is_root (comp_excluded ecs) (all_markers user) bc t rel).
 Proof. exact discover_exact_partial. Qed.
 Print Assumptions C18_discover_exact_partial.
 
-(* what the code computes, inside root_guard only: the specification with "inside an excluded
-   path" read as the code reads it (character prefix of the rendered path) *)
+(* the code's test on the rendered strings (root == e or root.startswith(e.rstrip("/") + "/"))
+   IS the component-prefix test, for all well-formed paths *)
+Theorem C18_exclusion_by_components :
+  forall ecs cs, Forall (Forall good) ecs -> Forall (fun x => noslash x = true) cs ->
+  string_excluded ecs cs = comp_excluded ecs cs.
+Proof. exact string_comp_excluded. Qed.
+Print Assumptions C18_exclusion_by_components.
+
+(* what the code computes without the path hypotheses, inside root_guard only *)
 Theorem C18_discover_exact_string :
   forall ecs user bc t p,
   wf t -> root_guard ecs (all_markers user) bc t = true ->
@@ -55,24 +66,14 @@ Theorem C18_discover_exact_general :
 Proof. exact discover_exact_general. Qed.
 Print Assumptions C18_discover_exact_general.
 
-(* the same with the guards in their computed (boolean) form, which the harness evaluates with
-   the extracted model on every generated case and compares with its own reading of the guards *)
-Theorem C18_discover_exact_partial_dec :
-  forall ecs user bc t p,
-  wf t -> root_guardb ecs user bc t = true -> alignedb ecs bc t = true ->
-  (In p (walk_paths (render bc) t (map render ecs) user) <->
-   exists rel, p = render (bc ++ rel) /\ is_root (comp_excluded ecs) (all_markers user) bc t rel).
-Proof. exact discover_exact_partial_dec. Qed.
-Print Assumptions C18_discover_exact_partial_dec.
-
-(* outside `aligned`: excluding .../excl loses the sibling project .../excl2 *)
-Theorem C18_prefix_sibling_refuted :
+(* outside root_guard exactness fails: MARK/p is a root by components, MARK is taken out *)
+Theorem C18_root_marker_dir_lost_refuted :
   exists ecs user bc t rel,
-    wf t /\ root_guard ecs (all_markers user) bc t = true /\
+    wf t /\ good_paths ecs bc /\ root_guard ecs (all_markers user) bc t = false /\
     is_root (comp_excluded ecs) (all_markers user) bc t rel /\
     ~ In (render (bc ++ rel)) (walk_paths (render bc) t (map render ecs) user).
-Proof. exact prefix_sibling_refuted. Qed.
-Print Assumptions C18_prefix_sibling_refuted.
+Proof. exact root_marker_dir_lost_refuted. Qed.
+Print Assumptions C18_root_marker_dir_lost_refuted.
 
 (* the root is offered whenever it holds a project file: whatever its name, the excluded
    paths (even the root itself or a parent), the markers it carries *)
@@ -143,7 +144,7 @@ Print Assumptions C18_exit_hang_refuted.
    analysis succeeds (projects that fail to analyse disturb nothing else) *)
 Theorem C18_offered_exact_partial :
   forall ecs user bc t analyse l,
-  wf t -> root_guard ecs (all_markers user) bc t = true -> aligned ecs bc t ->
+  wf t -> good_paths ecs bc -> root_guard ecs (all_markers user) bc t = true ->
   discover (render bc) t (map render ecs) user analyse = Offered l ->
   forall p, In p l <->
     exists rel, p = render (bc ++ rel) /\
